@@ -332,7 +332,11 @@ impl Node {
         let mut loading = vec![];
         let mut root = Node::default();
         base.render_impl(r, &mut seen, &mut loading, &mut root)?;
-        self.render_impl(r, &mut seen, &mut loading, &mut base)?;
+        // NOTE(sg): All of our classes have already been loaded and merged through the base
+        // node. We only merge our own definitions here. Walking the class list again would
+        // resolve include entries which contain references against the final parameters, and
+        // could load an additional class for such an entry.
+        self.merge_into(&mut base)?;
         self.render_parameters()
     }
 }
